@@ -117,6 +117,8 @@ Verdict(e) ==
          IF B.d = <<>> THEN Chk(IsPanic(e.r), "zero-divisor-must-panic")
          ELSE IF IsOneOverX(e) \/ ("bits" \in DOMAIN e.a /\ A = DOne)      \* `1 / x` with a primitive one is the reciprocal (C12)
          THEN InverseOK(B, cfg.precision, cfg.mode, e.r)
+         ELSE IF "rhsprim" \in DOMAIN e /\ Norm(DAbs(B)) = Mk(1, Two, 0)          \* division by a primitive +-2 is the exact half
+         THEN (IF ~IsD(e.r) THEN Bad("outcome-kind") ELSE Chk(ValEq(DMul(DecOf(e.r.d), B), A), "half-not-exact"))
          ELSE LET v == DivOK(A, B, cfg.precision, e.r)
               IN IF v = OK THEN DivAgreeOK(hist.div, A, B, e.r) ELSE v
     [] op = "rem" -> RemOK(Arg(e.a), Arg(e.b), e.r)
